@@ -456,7 +456,15 @@ def _F30():
     return not (torch.isfinite(x).all() and torch.isfinite(ld).all() and abs(x.item() - 1.0) < 1e-6 and abs(ld.item() + ldf.item()) < 1e-4)
 
 
-REPLAYS = {'F24': _F24, 'F25': _F25, 'F26': _F26, 'F27': _F27, 'F28': _F28, 'F29': _F29, 'F30': _F30, 'F1-linear': _F1('lin'), 'F1-quadratic': _F1('quad'), 'F1-cubic': _F1('cubic'), 'F2': _F2, 'F3': _F3, 'F4': _F4,
+def _F31():
+    import nflows.transforms as T
+    t = T.PointwiseAffineTransform(shift=1, scale=2).double()
+    x = torch.tensor([[0.5, -1.25, 3.0]], dtype=torch.float64)
+    y, ld = t(x)
+    return not (y.dtype == torch.float64 and ld.dtype == torch.float64 and abs(ld.item() - 3 * math.log(2.0)) < 1e-14)
+
+
+REPLAYS = {'F31': _F31, 'F24': _F24, 'F25': _F25, 'F26': _F26, 'F27': _F27, 'F28': _F28, 'F29': _F29, 'F30': _F30, 'F1-linear': _F1('lin'), 'F1-quadratic': _F1('quad'), 'F1-cubic': _F1('cubic'), 'F2': _F2, 'F3': _F3, 'F4': _F4,
            'F6': _F6, 'F9': _F9, 'F12': _F12, 'F13': _F13, 'F16': _F16, 'F17': _F17}
 
 
